@@ -6,6 +6,8 @@ import NsyncVerif.Model.OnceDriver
 import NsyncVerif.Model.DllDriver
 import NsyncVerif.Model.Deadline
 import NsyncVerif.Model.VCDriver
+import NsyncVerif.Model.MuQDriver
+import NsyncVerif.Model.CounterDriver
 /-
   `replay <layer>…` : reads a harness log (or a differential case file) on stdin and feeds every line
   to the selected layers.  A layer answers `ok`, `skip`, `#` or a complaint (`REJECT …`, `MISMATCH …`,
@@ -24,6 +26,8 @@ structure Layers where
   dll : Dll.Driver.DState := Dll.Driver.init
   deadline : Deadline.Driver.DState := Deadline.Driver.init
   vc : VC.Driver.DState := VC.Driver.init
+  muq : MuQ.Driver.DState := MuQ.Driver.init
+  counter : Counter.Driver.DState := Counter.Driver.init
 
 /-- Nested API boundaries are logged as `ncall`/`nret` with structured names (`oncesync5.mu`,
     `ctr0.mu`, …); the layers that treat an inner mutex/cv as a black box were written against
@@ -47,12 +51,24 @@ def isConventionKind (line : String) : Bool :=
   | _ :: k :: _ => k ∈ ["call", "ret", "ncall", "nret", "atm", "sem", "futex", "now", "tick", "cb", "cond", "panic"]
   | _ => false
 
+/-- the Counter layer was written against `malloc <obj>` / `free <obj>` lines without the function name -/
+def adaptCounter (line : String) : String :=
+  match line.splitOn " " with
+  | [t, "malloc", o, _fn] => " ".intercalate [t, "malloc", o]
+  | [t, "free", o, _fn] => " ".intercalate [t, "free", o]
+  | _ => line
+
 def Layers.feed (l : Layers) (name line : String) : Layers × String :=
   match name with
   | "mux" => let (d, o) := MuX.Driver.step l.mux line; ({ l with mux := d }, o)
   | "time" => let (d, o) := Time.Driver.step l.time line; ({ l with time := d }, o)
   | "emit" => let (d, o) := Emit.Driver.step l.emit line; ({ l with emit := d }, o)
   | "futex" => let (d, o) := Futex.Driver.step l.futex line; ({ l with futex := d }, o)
+  | "muq" => let (d, o) := MuQ.Driver.step l.muq line; ({ l with muq := d }, o)
+  | "counter" =>
+    if isConventionKind line || (line.splitOn " ").getD 1 "" == "malloc" || (line.splitOn " ").getD 1 "" == "free" then
+      let (d, o) := Counter.Driver.step l.counter (adaptCounter (adaptNested line)); ({ l with counter := d }, o)
+    else (l, "skip")
   | "vc" => let (d, o) := VC.Driver.step l.vc line; ({ l with vc := d }, o)
   | "deadline" => let (d, o) := Deadline.Driver.step l.deadline line; ({ l with deadline := d }, o)
   | "dll" => let (d, o) := Dll.Driver.step l.dll line; ({ l with dll := d }, o)
